@@ -150,7 +150,8 @@ def run(fn, root=None):
 
 
 def pubkeys_doc(variant):
-    """variant 0: the operator's six keys; 1: another key for one path; 2: UI path missing; 3: a non-hex key; 4: empty; 5: one extra path"""
+    """variant 0: the operator's six keys; 1: another key for one path; 2: UI path missing; 3: a non-hex key; 4: empty; 5: one extra path;
+    6 / 7: one extra key under an alias spelling of one of the six paths"""
     d = {p: key_of(i).hex() for i, p in enumerate(PATHS)}
     if variant == 1:
         d[PATHS[3]] = key_of(9).hex()
@@ -162,6 +163,11 @@ def pubkeys_doc(variant):
         d = {}
     elif variant == 5:
         d["m/44'/0'/0'/0/1"] = key_of(8).hex()
+    elif variant in (6, 7):
+        # a seventh, foreign key under another SPELLING of one of the six paths (zero-padded index / blanks), listed before
+        # (6) or after (7) the real entry: seven keys are not the operator's six
+        alias = {"m/44'/01'/0'/0/0" if variant == 6 else " m/44'/1'/0'/0/0 ": key_of(9).hex()}
+        d = {**alias, **d} if variant == 6 else {**d, **alias}
     return d
 
 
@@ -206,7 +212,7 @@ ROOT_OPTS = [None, "04" + "ab" * 64, "", "zz", "0x04" + "ab" * 64]   # not given
             "symbolic: signer target, header %s" % SIGNER_HEADERS[p - 2].decode(),
             bounds="Ledger verify: one input group symbolic per partition. UI: present / valid / header among 7 / attested key equals the "
                    "operator's or not. Signer: present / valid / header among 9 (current, legacy, foreign, version variants, two over-long ones) / message "
-                   "length = documented length + delta, delta in -3..+3 (T: -8..+8), bytes added / removed at the end or at the front of the body (symbolic) / reported keys hash equals or not. Keys file among 6 variants, "
+                   "length = documented length + delta, delta in -3..+3 (T: -8..+8), bytes added / removed at the end or at the front of the body (symbolic) / reported keys hash equals or not. Keys file among 8 variants, "
                    "root authority parses or not; root authority option not given / a hex key / empty / not hex / 0x-prefixed (symbolic)",
             examples=[(0, dict(present=True, valid=True, hi=0, same=True, delta=0, var=0, root_ok=True)),
                       (6, dict(present=True, valid=True, hi=4, same=True, delta=0, var=0, root_ok=True)),
@@ -220,7 +226,7 @@ def ledger(present: bool, valid: bool, hi: int, same: bool, delta: int, var: int
     """
     pre: 0 <= hi <= 6
     pre: -DMAX <= delta <= DMAX
-    pre: 0 <= var <= 5
+    pre: 0 <= var <= 7
     pre: 0 <= ropt <= 4
     post: _
     """
@@ -298,7 +304,7 @@ def ledger(present: bool, valid: bool, hi: int, same: bool, delta: int, var: int
 @obligation(tier="quick", parts=NSH + 1, timeout=200,
             part_names=lambda p: "symbolic: public keys / root" if p == NSH else "symbolic: quote target, header %s" % SIGNER_HEADERS[p].decode(),
             bounds="SGX verify: quote target present / valid / header among 9 / length delta -3..+3 (T: -8..+8) / keys hash equals or not; keys file among "
-                   "6 variants; root of trust validates itself or not",
+                   "8 variants; root of trust validates itself or not",
             examples=[(0, dict(present=True, valid=True, hi=0, same=True, delta=0, var=0, root_ok=True)),
                       (0, dict(present=True, valid=True, hi=0, same=True, delta=2, var=0, root_ok=True)),
                       (NSH, dict(present=True, valid=True, hi=0, same=True, delta=0, var=0, root_ok=False)),
@@ -308,7 +314,7 @@ def sgx(present: bool, valid: bool, hi: int, same: bool, delta: int, var: int, r
     """
     pre: 0 <= hi <= 6
     pre: -DMAX <= delta <= DMAX
-    pre: 0 <= var <= 5
+    pre: 0 <= var <= 7
     post: _
     """
     if part() < NSH:
